@@ -4,7 +4,7 @@ from __future__ import annotations
 import itertools
 import os
 
-from mc import recs, refsel, selgrammar
+from mc import recs, refsel, selgrammar, selhist
 from mc.faults import drain
 from mc.obs import obs, obs_list
 from mc.recs import rs
@@ -142,6 +142,8 @@ def run_long(case):
 
 
 def run_case(case):
+    if case["kind"] == "manydesc":
+        return selhist.run(case, "C10")
     if case["kind"] == "hist":
         return run_hist(case)
     if case["kind"] == "long":
@@ -428,6 +430,7 @@ def cases(tier):
         for e2 in AFTER:
             for i in range(nrec):
                 yield {"kind": "pair", "first": e1, "second": e2, "rec": i}
+    yield from selhist.cases(tier)
     for adapter, alphabet in ADAPTERS.items():
         for k in range(0, 4):
             for seq in itertools.product(alphabet, repeat=k):
